@@ -33,8 +33,6 @@ PROPOSED_KNOWN = [
 
 def known_entries():
     have = {f["id"]: f for f in known_for(PROP)}
-    for f in PROPOSED_KNOWN:
-        have.setdefault(f["id"], dict(f, source="proposed in reports/C03.md (not yet in known_findings.json)"))
     return list(have.values())
 
 
